@@ -54,6 +54,14 @@ CHECKS["C03"] = (
     "DESIGN.md section 5 C03",
 )
 
+CHECKS["C04"] = (
+    "exploration",
+    "history + executable model monitor (Python list/dict/set models mirrored op by op, every value ever produced re-checked against its creation-time snapshot, hash and metadata) plus an invariant hook on every public method of the five persistent classes (receiver unchanged across the call)",
+    "Held on branching histories over the five collection types: exhaustive to length 2 and a 1/3 (thorough: length 4, 1/8) systematic sample of length 3 over a key universe with equal keys of different representation, random histories to length 60 growing past 33/1057 elements with transient round trips, several hash seeds. Exploration.",
+    "Trusted: the Python list/dict/set models and the harness' model-key function (numbers by value, sequentials by elements); error behaviour of pop/nth outside the collection, iteration order and metadata propagation through pop/rest/merge/transients are not judged.",
+    "DESIGN.md section 5 C04",
+)
+
 NOT_BUILT ="check not built yet in this session (design in DESIGN.md section 5); not claimed until its monitor exists and is quiet on the unchanged tree"
 
 
